@@ -206,7 +206,7 @@ def impl_rows(ssm, labels, ids):
             return dict(ok=flat(f(x)))
         except Exception as e:
             return dict(err=gen_tag(e))
-    pot = {n: dict(c=flat(ssm.c_row_for_potential(n)), d=flat(ssm.d_row_for_potential(n))) for n in labels}
+    pot = {n: dict(c=tryrow(ssm.c_row_for_potential, n), d=tryrow(ssm.d_row_for_potential, n)) for n in labels}
     el = {i: dict(vc=tryrow(ssm.c_row_voltage, i), vd=tryrow(ssm.d_row_voltage, i),
                   ic=tryrow(ssm.c_row_current, i), id_=tryrow(ssm.d_row_current, i)) for i in ids}
     return pot, el
